@@ -20,6 +20,10 @@ import re
 
 from vplib import Job, REPO
 
+# example obligations link the whole library (precompiled once per run): a library function the example starts to call is
+# then inlined with its real body instead of being an undefined function
+LIBSRC = ['src/avtp/Utils.c']
+
 ENV3 = r'''
 #include <stdio.h>
 #include <stdarg.h>
@@ -154,7 +158,7 @@ def _first_iteration_fallback(primary_name, src, fn, repl, own, inc, config, fun
     """Used when the loop contract cannot be attached to the receive loop as written now: the loop is unwound once
     WITHOUT an unwinding assertion (it never terminates), i.e. the FIRST datagram is processed from CBMC's
     nondeterministic initial state (uninitialised locals and buffer are arbitrary).  Bounded stand-in."""
-    return Job(primary_name + '~first-iteration-fallback', src, [], enforce=fn, replace=repl, owners=own, clause_map=_tags(src),
+    return Job(primary_name + '~first-iteration-fallback', src, LIBSRC, enforce=fn, replace=repl, owners=own, clause_map=_tags(src),
                function=function, kind='example-fallback', config=config, includes=inc, timeout=1800, obj_bits=10,
                unwind={fn: 1}, no_unwinding_assertions=True, assumptions=MAIN_ASSUME,
                bounded='BOUNDED FALLBACK (loop contract not attachable): the receive loop is unwound once without an unwinding '
@@ -176,7 +180,7 @@ def hello_world_job(model, tier, config='le'):
     own = {'post': ['C18'], 'safety': ['C18'], 'assigns': ['C18'], 'loop': ['C18'], 'assert': ['C18'], 'unwind': ['C18']}
     fb = _first_iteration_fallback('examples/hello-world-listener/main-receive-loop', src, 'vp_hw_listener_main', repl, own, inc, config,
                                    'hello-world-listener.c:main(receive loop)')
-    return Job('examples/hello-world-listener/main-receive-loop', src, [], enforce='vp_hw_listener_main', replace=repl, fallback=fb,
+    return Job('examples/hello-world-listener/main-receive-loop', src, LIBSRC, enforce='vp_hw_listener_main', replace=repl, fallback=fb,
                loop_contracts={'vp_hw_listener_main': [{'template': MAIN_LOOP, 'symbols': MAIN_SYMS, 'all_locals': True}]},
                owners={'post': ['C18'], 'safety': ['C18'], 'assigns': ['C18'], 'loop': ['C18'], 'assert': ['C18'], 'unwind': ['C18']}, clause_map=_tags(src),
                function='hello-world-listener.c:main(receive loop)', kind='example', config=config, includes=inc, timeout=1800,
@@ -232,7 +236,7 @@ def vss_listener_jobs(model, tier, config='le'):
                                                             'Avtp_Vss_GetVssData/vp_safe_GetVssData_float']
     fb = _first_iteration_fallback('examples/acf-vss-listener/main-receive-loop', src, 'vp_vss_listener_main', repl, own, inc, config,
                                    'acf-vss-listener.c:main(receive loop)')
-    jobs.append(Job('examples/acf-vss-listener/main-receive-loop', src, [], enforce='vp_vss_listener_main', replace=repl, fallback=fb,
+    jobs.append(Job('examples/acf-vss-listener/main-receive-loop', src, LIBSRC, enforce='vp_vss_listener_main', replace=repl, fallback=fb,
                     loop_contracts={'vp_vss_listener_main': [{'template': MAIN_LOOP, 'symbols': MAIN_SYMS, 'all_locals': True}]},
                     owners=own, clause_map=_tags(src), function='acf-vss-listener.c:main(receive loop)', kind='example', config=config,
                     includes=inc, timeout=1800, obj_bits=10, assumptions=MAIN_ASSUME))
